@@ -427,14 +427,23 @@ def lib_tokens_file(wd):
     return path
 
 
-def judge(module, cases, rep, wd, shard=3000, env=None, timeout=3600, cfg=None):
-    """Hand cases to spec/<module>.tla in shards; returns one verdict record per case."""
+def judge(module, cases, rep, wd, shard=3000, env=None, timeout=3600, cfg=None, maxbytes=6_000_000):
+    """Hand cases to spec/<module>.tla in shards (bounded by count and by JSON size: every TLC worker
+    parses the file itself); returns one verdict record per case."""
     out = [None] * len(cases)
-    for off in range(0, len(cases), shard):
-        part = cases[off:off + shard]
+    off = 0
+    while off < len(cases):
+        part = []
+        size = 0
+        while off + len(part) < len(cases) and len(part) < shard:
+            s = json.dumps(cases[off + len(part)])
+            if part and size + len(s) > maxbytes:
+                break
+            part.append(s)
+            size += len(s)
         path = os.path.join(wd, "cases_%s_%d.json" % (module, off))
         with open(path, "w") as f:
-            json.dump(part, f)
+            f.write("[" + ",".join(part) + "]")
         e = {"CASES": path, "LIBTOKS": lib_tokens_file(wd)}
         if env:
             e.update(env)
@@ -442,6 +451,7 @@ def judge(module, cases, rep, wd, shard=3000, env=None, timeout=3600, cfg=None):
         for ci, vs in verdicts(r.states).items():
             out[off + ci - 1] = vs[0]
         os.remove(path)
+        off += len(part)
     missing = [i for i, v in enumerate(out) if v is None]
     if missing:
         raise MachineryError("%s: no verdict for %d cases (first index %d)" % (module, len(missing), missing[0]))
